@@ -88,6 +88,9 @@ def builtin_fn(ex, st, nm, e, cx, k):
                 return ex.guard_raise(st, cx, z3.Not(ok(s_.z)), 'ValueError', e,
                                       lambda s: k(s, SV(INT, f_(s_.z))), why='int(str, base)')
             return ex.ev_list(st, args, cx, f)
+    if nm == 'Fraction' and len(args) == 1:
+        # fractions.Fraction(x): the exact rational x
+        return ex.ev(st, args[0], cx, lambda s, v: k(s, ex.coerce(v, FLOAT)))
     if nm == 'float':
         return ex.ev(st, args[0], cx, lambda s, v: k(s, ex.coerce(v, FLOAT)))
     if nm == 'bool':
@@ -132,11 +135,16 @@ def builtin_fn(ex, st, nm, e, cx, k):
         return ex.ev_list(st, [args[0].func.value, kws['default']], cx, f)
     if nm in ('max', 'min') and len(args) >= 2:
         def f(st, vs):
-            r = ex.coerce(vs[0], INT).z
-            for v in vs[1:]:
-                z = ex.coerce(v, INT).z
-                r = z3.If(z > r, z, r) if nm == 'max' else z3.If(z < r, z, r)
-            return k(st, SV(INT, r))
+            zs = [ex.coerce(v, INT).z for v in vs]
+            if cx.spec:
+                r = zs[0]
+                for z in zs[1:]:
+                    r = z3.If(z > r, z, r) if nm == 'max' else z3.If(z < r, z, r)
+                return k(st, SV(INT, r))
+            # in code: a named value with its defining constraints (keeps if-then-else out of later terms)
+            m = ex.fresh(INT, nm)
+            bound = [(m.z >= z if nm == 'max' else m.z <= z) for z in zs]
+            return k(st.assume(z3.And(bound), z3.Or([m.z == z for z in zs])), m)
         return ex.ev_list(st, args, cx, f)
     if nm == 'bytearray':
         if not args:
@@ -410,8 +418,8 @@ def to_bytes(ex, st, v, args, kwargs, cx, node, k):
 
     def cont(s):
         j = z3.Int('j!tb')
-        u = v % p
-        little = order.z == z3.StringVal('little')
+        u = ex.bi.pmod(v, p)
+        little = z3.simplify(order.z == z3.StringVal('little'))
         s2, r = ex.new_list(s, T.BYTES, n, z3.Lambda([j], tb(u, n, little, j)), 'bytes')
         return k(s2, r)
     bad_order = z3.And(order.z != z3.StringVal('little'), order.z != z3.StringVal('big'))
